@@ -20,7 +20,14 @@ predicates of Spec/ConnUpdates.lean on what the server did:
 * class `invalid-K` : an update naming unknown / protected objects changed the state or was not refused;
 * class `invariant` : the index dump violates the schema-level invariant;
 * class `model-spelling` : the flags of a message as `message_flags_v2` spells them (section `SP:` of the
-                      dump) are not what `setMessageFlagsSp` / `fsOf` (Model/ConnFlagSpelling.lean) say.
+                      dump) are not what `setMessageFlagsSp` / `fsOf` (Model/ConnFlagSpelling.lean) say;
+* class `model-client` : a client's SUBSCRIBE / UNSUBSCRIBE / DELETE did to the subscription tables (column
+                      `subscribed`, table `deleted_subscriptions`, the mailbox row) something else than
+                      `clientStep` (Model/ConnClientSubs.lean = the C14 model of these commands on this index).
+
+The states client commands prepare: for every valid, effective update the judge counts the cells
+`p.<Kind>.<state>` of the kind × client-prepared-state table (`prepStates`), judged on the index, the
+live sessions and what clients did before (`cliFlag`, `cliExp`, `cliDel`) at the moment the update arrived.
 
 Flags in steps are tokens that stand for a spelling (`spellOf`, the same function as `cuFlagLong` of the
 harness); the model of Model/ConnUpdates.lean runs on their names (`keyTok`).  A message spec
@@ -31,6 +38,7 @@ id), so one disagreement does not cascade.  Formats: see harness/o_connupd.go.
 -/
 import GluonModel.Spec.ConnUpdates
 import GluonModel.Model.ConnFlagSpelling
+import GluonModel.Model.ConnClientSubs
 import GluonModel.Generated.Facts.Ack
 import GluonModel.Generated.Facts.Chunk
 
@@ -295,6 +303,12 @@ structure JState where
   prevRefused : Option String := none
   /-- the flags as the index spelled them in the last dump (none: no dump with a section `SP:` yet) -/
   sp : Option (List (RID × List String)) := none
+  /-- messages whose flags (or `\Deleted` in some mailbox) a client command changed -/
+  cliFlag : List RID := []
+  /-- messages a client command took out of a mailbox (EXPUNGE, MOVE) -/
+  cliExp : List RID := []
+  /-- names of the mailboxes clients deleted -/
+  cliDel : List String := []
 
 def litsOf (db : DB) (rid : RID) : String :=
   match db.msgByRid rid with
@@ -336,18 +350,26 @@ def fail (st : JState) (k : Nat) (cls : String) (msg : String) : JState :=
 
 /-- messages in the snapshots of the live observers other than `except` (they are in step with the
     index: every observer issued NOOP after the last change) -/
-def heldBy (db : DB) (obs : List Observer) (except : List Nat) : List Nat :=
+def heldBy (db : DB) (obs : List Observer) (except : List Nat) (before : Option DB := none) : List Nat :=
   (obs.filter (fun o => o.alive && !except.contains o.idx)).flatMap (fun o =>
     match o.sel with
-    | some mb => (match db.mboxByIid mb with | some m => m.rows.map (·.msg) | none => [])
+    | some mb =>
+      (match db.mboxByIid mb with
+       | some m => m.rows.map (·.msg)
+       | none =>
+         -- the mailbox was deleted by the update that ends the sessions: a session that has not ended yet still
+         -- holds the snapshot it had (the mailbox as it was before the update)
+         (match before with
+          | some pre => (match pre.mboxByIid mb with | some m => m.rows.map (·.msg) | none => [])
+          | none => []))
     | none => [])
 
 /-- observers end one after the other (in index order); each end runs the collection -/
-def gcDeaths (db : DB) (obs : List Observer) (died : List Nat) : DB :=
+def gcDeaths (db : DB) (obs : List Observer) (died : List Nat) (before : Option DB := none) : DB :=
   let order := (obs.map (·.idx)).filter (fun i => died.contains i)
   let rec go (db : DB) (gone : List Nat) : List Nat → DB
     | [] => db
-    | i :: rest => go (gc db (heldBy db obs (i :: gone))) (i :: gone) rest
+    | i :: rest => go (gc db (heldBy db obs (i :: gone) before)) (i :: gone) rest
   go db [] order
 
 /-- what the update named (one word, for the `target=` field of an acknowledgement failure) -/
@@ -441,6 +463,57 @@ def ackFailure (ack head : String) : Option (String × String) :=
     some ("server-panic", s!"a server goroutine panicked while the update was applied: {head}")
   else none
 
+
+/-- `subsKey` with the deleted subscriptions as a set (the dump sorts them) -/
+def subsKeyS (db : DB) : List (Nat × RID × String × Bool) × List String :=
+  ((subsKey db).1, sortStr ((subsKey db).2.map (fun e => s!"{e.1},{e.2}")))
+
+/-! ### the states client commands prepare (kind × prepared state) -/
+
+def selectedBy (obs : List Observer) (mb : Nat) : Bool := obs.any (fun o => o.alive && o.sel == some mb)
+
+/-- states of a mailbox an update names -/
+def mboxStates (st : JState) (pre : DB) (m : Mbox) : List String :=
+  [if m.subscribed then "subscribed" else "unsubscribed"] ++
+  (if pre.delSubs.any (fun e => e.1 == m.name) then ["deleted-subscription"] else []) ++
+  (if selectedBy st.obs m.iid then ["selected"] else []) ++
+  (if !m.rows.isEmpty then ["holding-messages"] else []) ++
+  (if m.rows.any (·.deleted) then ["rows-flagged-deleted"] else []) ++
+  (if pre.mboxes.any (fun x => x.name.startsWith (m.name ++ "/")) then ["having-inferiors"] else [])
+
+/-- states of a name an update gives to a mailbox -/
+def nameStates (st : JState) (pre : DB) (name : String) (created : Bool) : List String :=
+  (if pre.delSubs.any (fun e => e.1 == name) then ["name-deleted-subscription"] else []) ++
+  (if created && st.cliDel.contains name then ["name-client-deleted"] else [])
+
+/-- states of a message an update names -/
+def msgStates (st : JState) (pre : DB) (g : Msg) : List String :=
+  let inBoxes := pre.mboxes.filter (fun m => m.has g.iid)
+  let delIn := inBoxes.filter (fun m => m.rows.any (fun r => r.msg == g.iid && r.deleted))
+  (if delIn.length == 1 then ["deleted-in-one-mailbox"] else []) ++
+  (if delIn.length ≥ 2 then ["deleted-in-several-mailboxes"] else []) ++
+  (if inBoxes.isEmpty && st.cliExp.contains g.rid then ["expunged-still-known"] else []) ++
+  (if st.cliFlag.contains g.rid then ["flagged-by-client"] else []) ++
+  (if inBoxes.any (fun m => selectedBy st.obs m.iid) then ["in-selected-mailbox"] else []) ++
+  (if inBoxes.length ≥ 2 then ["in-several-mailboxes"] else [])
+
+/-- the cells of kind × client-prepared state the update falls into on the index it met -/
+def prepStates (st : JState) (pre : DB) : Update → List String
+  | .mailboxCreated _ name => nameStates st pre name true
+  | .mailboxDeleted rid => (match pre.mboxByRid rid with | some m => mboxStates st pre m | none => [])
+  | .mailboxUpdated rid name =>
+    (match pre.mboxByRid rid with | some m => mboxStates st pre m | none => []) ++ nameStates st pre name false
+  | .mailboxIDChanged iid _ => (match pre.mboxByIid iid with | some m => mboxStates st pre m | none => [])
+  | .messagesCreated _ ms =>
+    ((ms.map (·.rid)).eraseDups.flatMap (fun rid =>
+      match pre.liveMsg rid with | some g => msgStates st pre g | none => [])).eraseDups
+  | .messageMailboxesUpdated rid _ _ => (match pre.liveMsg rid with | some g => msgStates st pre g | none => [])
+  | .messageFlagsUpdated rid _ => (match pre.liveMsg rid with | some g => msgStates st pre g | none => [])
+  | .messageIDChanged iid _ => (match pre.msgByIid iid with | some g => msgStates st pre g | none => [])
+  | .messageDeleted rid => (match pre.liveMsg rid with | some g => msgStates st pre g | none => [])
+  | .messageUpdated m _ => (match pre.liveMsg m.rid with | some g => msgStates st pre g | none => [])
+  | _ => []
+
 def stepU (st : JState) (k : Nat) (w : List String) (head : String) (secs : List String) : JState :=
   match parseUpdate st.db w with
   | none => fail st k "harness" "unparsable update step"
@@ -471,7 +544,7 @@ def stepU (st : JState) (k : Nat) (w : List String) (head : String) (secs : List
         | none => false)).map (·.idx)
     let st := if sortStr (died.map toString) != sortStr (expectDead.map toString) then
                 fail st k "model-observer" s!"{kind}: observers that lost their session: observed {died}, model {expectDead}" else st
-    let post := gcDeaths r.db st.obs died
+    let post := gcDeaths r.db st.obs died (some pre)
     -- model against code
     -- (`applyMessagesCreated` walks a Go map: when several mailboxes refuse their messages with different
     --  errors, which one is acknowledged depends on the iteration order; the model takes insertion order,
@@ -556,6 +629,10 @@ def stepU (st : JState) (k : Nat) (w : List String) (head : String) (secs : List
     let st := bump st s!"ack.{(showErr r.err).replace ":" "-"}.{kind}"
     -- the kind × variant table, and "the pipeline goes on": what came right after a refused update
     let st := (variantsOf st.cfg pre u valid restates dup otherSpelling otherOrder).foldl (fun st v => bump st s!"t.{kind}.{v}") st
+    -- kind × client-prepared state: valid, effective updates only (judged on this index alone: an earlier
+    -- known break of the invariant that has been repaired since does not take the update out of the table)
+    let st := if Valid st.cfg pre u && Inv pre && !Restates st.cfg pre u then
+        (prepStates st pre u).foldl (fun st v => bump st s!"p.{kind}.{v}") st else st
     let st := match st.prevRefused with
       | some pk =>
         let st := bump st "pipe.update-after-refused"
@@ -668,7 +745,61 @@ def stepS (st : JState) (k : Nat) (i : Nat) (w : List String) (head : String) (s
       else st
     | _ => st
   let obs := obs.map (fun (o : Observer) => if died.contains o.idx then { o with alive := false, sel := none } else o)
-  { st with db := db', obs := obs }
+  -- SUBSCRIBE / UNSUBSCRIBE / DELETE: the subscription tables against the C14 model of these commands
+  let cmd : Option ClientCmd := match w with
+    | ["SUBSCRIBE", name] => some (.subscribe (decName name))
+    | ["UNSUBSCRIBE", name] => some (.unsubscribe (decName name))
+    | ["DELETE", name] => some (.delete (decName name))
+    | _ => none
+  let st := match cmd with
+    | some c =>
+      if secs.isEmpty || status == "skip" || status.startsWith "dead" then st
+      else
+        let st := bump st s!"client.{w.headD ""}.{status}"
+        match clientStep st.db c with
+        | .ok db1 =>
+          if status != "OK" then
+            fail st k "model-client" s!"{" ".intercalate w}: answered {status}, the model (Model/ConnClientSubs.lean) accepts it"
+          else if subsKeyS db1 != subsKeyS db' then
+            fail st k "model-client" s!"{" ".intercalate w}: subscription tables differ; observed {"~".intercalate secs} model {dumpDB db1}"
+          else st
+        | .error _ =>
+          if status == "OK" then
+            fail st k "model-client" s!"{" ".intercalate w}: answered OK, the model (Model/ConnClientSubs.lean) refuses it"
+          else if subsKeyS st.db != subsKeyS db' then
+            fail st k "model-client" s!"{" ".intercalate w}: refused, but the subscription tables changed; observed {"~".intercalate secs}"
+          else st
+    | none => st
+  -- the session that deleted the mailbox it had selected has none selected afterwards
+  let obs := match w with
+    | ["DELETE", name] =>
+      if status == "OK" then
+        match st.db.mboxes.find? (fun (m : Mbox) => m.name == decName name) with
+        | some m => obs.map (fun (o : Observer) => if o.idx == i && o.sel == some m.iid then { o with sel := none } else o)
+        | none => obs
+      else obs
+    | _ => obs
+  -- what the client did to messages: flags / `\Deleted` changed, rows taken out of a mailbox
+  let pre := st.db
+  let flagged : List RID := if secs.isEmpty then [] else
+    (db'.msgs.filter (fun g' =>
+      match pre.msgByRid g'.rid with
+      | some g =>
+        !sameSet g.flags g'.flags ||
+        db'.mboxes.any (fun m' => match pre.mboxByIid m'.iid with
+          | some m => m'.rows.any (fun r' => r'.rid == g'.rid && m.rows.any (fun r => r.rid == r'.rid && r.deleted != r'.deleted))
+          | none => false)
+      | none => false)).map (·.rid)
+  let expunged : List RID := if secs.isEmpty then [] else
+    (pre.mboxes.flatMap (fun m => match db'.mboxByIid m.iid with
+      | some m' => (m.rows.filter (fun r => !m'.rows.any (fun r' => r'.rid == r.rid))).map (·.rid)
+      | none => []))
+  let deleted : List String := match w with
+    | ["DELETE", name] => if status == "OK" then [decName name] else []
+    | _ => []
+  { st with db := db', obs := obs,
+            cliFlag := (st.cliFlag ++ flagged).eraseDups, cliExp := (st.cliExp ++ expunged).eraseDups,
+            cliDel := (st.cliDel ++ deleted).eraseDups }
 
 def stepCheck (st : JState) (k : Nat) (secs : List String) : JState :=
   let wire := ((secs.find? (fun s => s.startsWith "W:")).map (fun s => (s.drop 2).toString)).getD "?"
